@@ -743,7 +743,7 @@ def check_pairs(prop, tier):
     n = 40 if tier == 'quick' else 600
     if prop == 'C10':
         model_meta_stage(R, prop, tier)
-        pair_stage(R, prop, pairs.gen_c10(rng, n, drive.RULES), known)
+        pair_stage(R, prop, pairs.gen_c10(rng, 4 * n, drive.RULES), known)
         R.cov['rule'] = 'pairs (canonical file, another presentation of the same ballots: permuted/split/merged lines, comments, layout, nicknames) x all rules; TLC evaluates SameHistory (Pairs.tla) plus the byte-equality observations'
     elif prop == 'C11':
         model_meta_stage(R, prop, tier)
@@ -1214,7 +1214,7 @@ def check_blt(prop, tier):
     rid = 0
     skipped = collections.Counter()
     skipped_path = collections.Counter()
-    nwf = 150 if tier == 'quick' else 3000
+    nwf = 450 if tier == 'quick' else 3000
     nfz = 700 if tier == 'quick' else 20000
     texts = []
     for _ in range(nwf):
@@ -1232,7 +1232,7 @@ def check_blt(prop, tier):
         seen = set(t for t, _ in texts)
         texts += [(t, None) for t in dict.fromkeys(sysx) if t not in seen]
     else:
-        texts += [(t, None) for t in blt.fuzz_texts(rng, 150)]
+        texts += [(t, None) for t in blt.fuzz_texts(rng, 300)]
     for text, want in texts:
         R.cov['evaluations'] += 1
         try:
